@@ -136,8 +136,15 @@ def build(inp):
         ro = attempt(lambda: [elem_obs(e, z) for z in x.readonly_iter()], anyerr=True)
         it = [elem_obs(e, z) for z in iter(x)]
         ob = x.to_obj()
+        kept = list(iter(x))                       # all elements first, looked at afterwards (as list(v), a, b = v do)
+        kept_obs = [elem_obs(e, z) for z in kept]
+        unpacked = [elem_obs(e, z) for z in (lambda *a: a)(*x)]
         if it != idx:
             why = "iter() disagrees with indexing"
+        elif kept_obs != idx:
+            why = "the elements kept from list(iter(v)) are not the elements indexing gives (a yielded element changed afterwards)"
+        elif unpacked != idx:
+            why = "unpacking (*v) disagrees with indexing"
         elif slices_disagree(x, idx, lambda z: elem_obs(e, z), ll):
             why = slices_disagree(x, idx, lambda z: elem_obs(e, z), ll)
         elif rewalk_disagrees(lambda: x.readonly_iter(), idx, lambda z: elem_obs(e, z)):
@@ -157,6 +164,9 @@ def build(inp):
         ll = len(t[1])
         idx = [bytes(getattr(x, "f%d" % i).hash_tree_root()) for i in range(ll)]
         it = attempt(lambda: [bytes(z.hash_tree_root()) for z in iter(x)], anyerr=True)
+        kept = attempt(lambda: [bytes(z.hash_tree_root()) for z in list(iter(x))], anyerr=True)
+        if kept != it:
+            why = "the field views kept from list(iter(container)) differ from those looked at one by one"
         un = attempt(lambda: [bytes(z.hash_tree_root()) for z in (lambda *a: a)(*x)], anyerr=True)
         if un != it:
             why = "unpacking disagrees with iteration"
